@@ -2075,3 +2075,119 @@ def any_counts_as_object(ctx):
         not problems,
         "; ".join(problems[:2]) + ": a method annotated type[Any] / type[list[Any]] is never applicable, although typing.Any counts as object",
     )
+
+
+# ---------------------------------------------------------------------------------------- mirror image across kinds
+def order_is_mirrored_across_kinds(ctx):
+    """The order function itself, the subtype test and the hooks of the union, the intersection and the value-dependent
+    type, all interpreted together on small worlds of real classes (bool < int, str): for every pair made of a union /
+    an intersection / a dependent type / a class, typeorder(a, b) and typeorder(b, a) are mirror images."""
+    import itertools
+    import typing
+
+    repo = ctx.repo
+    to, sc, en = A.typeorder_fn(repo), A.subclasscheck_fn(repo), A.order_enum(repo)
+    dm = A.dependent_meta(repo)
+    raws = {c.name: repo.raw_methods(c) for c in repo.all_classes() if c.name in ("Union", "Intersection")}
+    if set(raws) != {"Union", "Intersection"}:
+        raise AnalysisError("union / intersection classes not found")
+    draw = repo.raw_methods(dm)
+    ctx.touch(to, sc, dm.methods["__type_order__"])
+
+    class Made:
+        """a type made by the forwarding metaclass: it forwards the protocol to its handler object"""
+
+        def __init__(self, kind, members):
+            self.kind, self.members = kind, tuple(members)
+            h = Instance(kind, raws[kind])
+            h.__dict__.update(types=self.members, __args__=self.members)
+            self._handler = h
+            for hook in ("__type_order__", "__is_supertype__", "__is_subtype__", "__subclasscheck__"):
+                if hook in raws[kind]:
+                    setattr(self, hook, HostFn(lambda other, hook=hook, h=h: hi.call_function(raws[kind][hook], [h, other], {}, {})))
+
+        def __repr__(self):
+            return f"{self.kind}[{', '.join(getattr(m, '__name__', repr(m)) for m in self.members)}]"
+
+        def __eq__(self, other):
+            return isinstance(other, Made) and self.kind == other.kind and set(self.members) == set(other.members)
+
+        __hash__ = object.__hash__
+
+    def dep(bound):
+        d = Instance(dm.name, draw)
+        d.__dict__.update(bound=bound, label=f"Dependent[{bound.__name__}, c]")
+        return d
+
+    DEP = Record(kind="the dependent metaclass")
+    factories = {k: Record(kind=f"the {k} factory") for k in raws}
+
+    def isinst(o, cls):
+        if cls is DEP:
+            return isinstance(o, Instance) and o._cls_name == dm.name
+        if isinstance(cls, tuple) and len(cls) == 2 and cls[0] == "class":
+            return isinstance(o, Instance) and o._cls_name == cls[1]
+        if isinstance(cls, tuple):
+            return any(isinst(o, c) for c in cls)
+        if isinstance(o, (Instance, Made, Record)):
+            return cls is object
+        return isinstance(o, cls)
+
+    def issub(a, b):
+        if isinstance(b, Made):
+            return bool(b.__subclasscheck__(a))
+        if isinstance(b, Instance):
+            raise TypeError("issubclass() arg 2 must be a class")
+        if isinstance(a, (Made, Instance)):
+            return b is object
+        return issubclass(a, b)
+
+    order_ns = Record(merge=HostFn(lambda orders: _ref_merge(list(orders))), **_ORD)
+    funcs = {n: g.node for n, g in to.module.funcs.items() if g.parent is None and g.cls is None}
+    genv = {
+        en.name: order_ns, "NotImplemented": NotImplemented, "UnionTypes": (), "typing": typing, "Any": typing.Any, "TypeError": TypeError,
+        "get_origin": lambda t: None, "get_args": lambda t: (), "issubclass": issub, "isinstance": isinst,
+        dm.name: DEP, "Union": factories["Union"], "Intersection": factories["Intersection"],
+    }
+    hi = HostInterp({}, Record(), {}, globals_env=genv, classes={}, functions=funcs)
+    hi.host_types = hi.host_types + (_Ord, Made)
+    world = [bool, int, str]
+    types_ = {
+        "a class": [bool, int, str],
+        "a union": [Made("Union", m) for m in ((bool, str), (int, str))],
+        "an intersection": [Made("Intersection", m) for m in ((int, str), (bool, str))],
+        "a value-dependent type": [dep(int), dep(bool)],
+    }
+    findings = {}
+    n = 0
+    for (ka, la), (kb, lb) in itertools.combinations_with_replacement(list(types_.items()), 2):
+        if ka == kb == "a class":
+            continue
+        bad = None
+        for a, b in itertools.product(la, lb):
+            if a is b:
+                continue
+            try:
+                x = hi.call_function(to.node, [a, b], {}, {})
+                y = hi.call_function(to.node, [b, a], {}, {})
+            except Raised as e:
+                raise AnalysisError(f"{to.key}: raises {e.what} on {a!r} / {b!r}")
+            except (TypeError, AttributeError) as e:
+                raise AnalysisError(f"{to.key}: not interpretable on {a!r} / {b!r}: {e}")
+            n += 1
+            if getattr(x, "name", None) not in _ORD or getattr(y, "name", None) not in _ORD:
+                raise AnalysisError(f"{to.key}: answers {x!r} / {y!r}")
+            if x.opposite() is not y and bad is None:
+                show = lambda t: getattr(t, "label", None) or getattr(t, "__name__", None) or repr(t)  # noqa: E731
+                bad = f"typeorder({show(a)}, {show(b)}) is {x} but typeorder({show(b)}, {show(a)}) is {y}"
+        findings[(ka, kb)] = bad
+    for (ka, kb), bad in findings.items():
+        slug = f"{ka.split()[-1]}-vs-{kb.split()[-1]}"
+        ctx.ob(
+            f"{to.key}:mirror:{slug}",
+            to.loc(),
+            f"{ka} against {kb}: the two directions give mirror-image answers (order function, subtype test and the hooks interpreted together on the classes bool < int, str)",
+            bad is None,
+            (bad or "") + ": the layer sorter asks each pair one way only, in set order, so which of two methods is preferred (or whether the call is ambiguous) depends on the hash seed",
+        )
+    ctx.require(n >= 20, "expected the cross-kind pairs")
